@@ -16,7 +16,14 @@
      write_start comms f r     return value of sc_shmem_write_start on rank r
      dup_comms nc / comms_dup  the attachment a communicator obtained by MPI_Comm_dup inherits (copy callback)
      l_attach / l_detach / l_dup / l_free_dup   life cycle of the attached communicators (live ids, attribute)
-     pstep / prun              the lock/barrier protocol of the window flavours on one node, one event at a time *)
+     pstep / prun              the lock/barrier protocol of the window flavours on one node, one event at a time:
+                               WS_arrive i (write_start: unlock, enter its barrier), WS_leave i (that barrier complete: write_start
+                               returns, rank 0 with the exclusive lock), WR i v (store), WE_arrive i (write_end: the writer unlocks,
+                               enter its barrier), WE_leave i (barrier complete: shared lock, write_end returns);
+                               sarrived / sleft / arrived / left_ s i = write_start calls begun / returned from, write_end calls
+                               begun / returned from by rank i;  snap s k = the array as the writer left it when it entered its
+                               k-th write_end (snap s 0: the initial content);  wround s = the writer's round of the last store
+     pstep_old / prun_old      the same protocol WITHOUT the barrier of write_start: libsc before the repair of finding F-C14b *)
 From Coq Require Import ZArith Arith List Bool Sorting.Sorted.
 From ScV Require Import Base.CInt C14.ShmemModel C14.GridProofs C14.ShmemProofs C14.ProtocolProofs.
 Import ListNotations.
@@ -150,40 +157,70 @@ Theorem C14_all_write_unshared : forall comms f r, is_shared f = false -> write_
 Proof. exact all_write_unshared. Qed.
 Print Assumptions C14_all_write_unshared.
 
-(* ---- the write_start / write_end protocol of the window flavours, under every interleaving ----------------------- *)
-(* at any moment at most one rank of the node is between write_start and write_end with write access: intranode rank 0,
-   the only possible holder of the exclusive lock *)
+(* ---- the write_start / write_end protocol of the window flavours: EVERY interleaving, every n, any number of rounds, ---------
+   ---- no calling convention (every event list that prun accepts from pinit) --------------------------------------------------- *)
+(* (a) both MPI_MODE_NOCHECK assertions are true: no exclusive lock is ever taken while another rank of the node holds a lock,
+   no shared lock while another rank holds the exclusive one *)
+Theorem C14_protocol_nocheck_assertions_hold : forall n v es s, prun n (pinit v) es = Some s -> conflict s = false.
+Proof. exact nocheck_assertions_hold. Qed.
+Print Assumptions C14_protocol_nocheck_assertions_hold.
+
+(* (b) at any moment at most one rank of the node has write access: intranode rank 0, exactly between its return from write_start
+   and its entry into write_end; a rank holds the exclusive lock exactly while it is that writer, the shared lock exactly while it reads *)
 Theorem C14_protocol_one_writer : forall n v es s, prun n (pinit v) es = Some s ->
-  (forall i, ph s i = Writer -> i = 0) /\ (forall i, lk s i = ExclLock -> i = 0)
-  /\ (forall i j, ph s i = Writer -> ph s j = Writer -> i = j).
+  (forall i, ph s i = Writer -> i = 0) /\
+  (forall i, lk s i = ExclLock <-> ph s i = Writer) /\
+  (forall i, lk s i = SharedLock <-> ph s i = Reading) /\
+  (forall i j, ph s i = Writer -> ph s j = Writer -> i = j) /\
+  (ph s 0 = Writer <-> sleft s 0 = S (arrived s 0)).
 Proof. exact one_writer. Qed.
 Print Assumptions C14_protocol_one_writer.
 
-Theorem C14_protocol_write_access : forall n s i s', pstep n s (WS i) = Some s' -> (ph s' i = Writer <-> i = 0).
+Theorem C14_protocol_write_access : forall n s i s', pstep n s (WS_leave i) = Some s' -> (ph s' i = Writer <-> i = 0).
 Proof. exact write_access. Qed.
 Print Assumptions C14_protocol_write_access.
 
+(* (c) the array changes only by a store of the writer, between its write_start and write_end, holding the exclusive lock, while
+   no other rank of the node holds a lock or reads *)
 Theorem C14_protocol_only_writer_changes_array : forall n s e s', pstep n s e = Some s' -> mem s' <> mem s ->
   exists i v, e = WR i v /\ ph s i = Writer.
 Proof. exact array_changes_only_by_writer. Qed.
 Print Assumptions C14_protocol_only_writer_changes_array.
 
-(* after write_end: a rank returns from its k-th write_end only after the writer has entered its k-th write_end, so
-   everything stored in rounds 1..k is in the array it then reads *)
-Theorem C14_protocol_written_data_visible : forall n v es s i s', 0 < n ->
+Theorem C14_protocol_array_changes_only_in_write_round : forall n v es s e s',
+  prun n (pinit v) es = Some s -> pstep n s e = Some s' -> mem s' <> mem s ->
+  exists x, e = WR 0 x /\ ph s 0 = Writer /\ lk s 0 = ExclLock /\ sleft s 0 = S (arrived s 0) /\
+            forall j, j < n -> j <> 0 -> lk s j = NoLock /\ ph s j <> Reading.
+Proof. exact array_changes_only_in_write_round. Qed.
+Print Assumptions C14_protocol_array_changes_only_in_write_round.
+
+(* after write_end: a rank returns from its k-th write_end only after the writer has entered its k-th write_end *)
+Theorem C14_protocol_written_data_visible : forall n v es s i s',
   prun n (pinit v) es = Some s -> pstep n s (WE_leave i) = Some s' ->
   left_ s' i <= arrived s 0 /\ ph s' i = Reading /\ mem s' = mem s.
 Proof. exact leave_after_writer_end. Qed.
 Print Assumptions C14_protocol_written_data_visible.
 
-(* FULL-STRENGTH visibility (the array read after the k-th write_end holds the data of round k and nothing newer)
-   under the exact guard that excludes the recorded finding F-C14b: the writer enters write_start only after every
-   rank of the node has returned from the previous write_end *)
-Theorem C14_protocol_rounds_do_not_overlap : forall n v es s i s', 0 < n ->
-  prun_sync n (pinit v) es = Some s -> pstep_sync n s (WE_leave i) = Some s' ->
-  wround s' <= left_ s' i /\ left_ s' i <= arrived s' 0 /\ ph s' 0 <> Writer /\ mem s' = mem s.
-Proof. exact synced_rounds_visible. Qed.
+(* (d) ROUNDS DO NOT OVERLAP (full-strength visibility, no guard).  Whenever a rank reads - it has returned from its k-th
+   write_end and not yet entered its next write_start (k = 0: before the first round) - the array is EXACTLY what the writer left
+   when it entered ITS k-th write_end: the writer has completed exactly k rounds and begun no further one (it cannot begin round
+   k+1 before this rank has entered its (k+1)-th write_start), and the last store happened in a round <= k *)
+Theorem C14_protocol_rounds_do_not_overlap : forall n v es s i, prun n (pinit v) es = Some s -> i < n -> ph s i = Reading ->
+  mem s = snap s (left_ s i) /\ wround s <= left_ s i /\ arrived s 0 = left_ s i /\ sleft s 0 = left_ s i /\ ph s 0 <> Writer.
+Proof. exact rounds_do_not_overlap. Qed.
 Print Assumptions C14_protocol_rounds_do_not_overlap.
+
+(* the same from the writer's side: it has returned from no more write_starts than any rank of the node has begun; while it
+   writes nobody reads, every rank is inside the current round *)
+Theorem C14_protocol_writer_waits_for_readers : forall n v es s i, prun n (pinit v) es = Some s -> i < n ->
+  sleft s 0 <= sarrived s i /\ (ph s 0 = Writer -> ph s i <> Reading /\ left_ s i < sarrived s i).
+Proof. exact writer_waits_for_readers. Qed.
+Print Assumptions C14_protocol_writer_waits_for_readers.
+
+(* the two barriers cannot deadlock: in every reachable state some rank can take its next step *)
+Theorem C14_protocol_no_deadlock : forall n v es s, 0 < n -> prun n (pinit v) es = Some s -> exists e s', pstep n s e = Some s'.
+Proof. exact no_deadlock. Qed.
+Print Assumptions C14_protocol_no_deadlock.
 
 (* ---- MPI_Comm_dup of a communicator with attachment (attribute copy callback sc_mpi_node_comms_copy) --------------- *)
 (* the duplicate carries the SAME grid: same member lists in the same slots, hence the same position of every rank;
@@ -237,18 +274,23 @@ Theorem C14_window_allgather_roundrobin_refuted :
 Proof. exact roundrobin_refuted. Qed.
 Print Assumptions C14_window_allgather_roundrobin_refuted.
 
-(* F-C14b: two write rounds back to back: rank 1 returns from its FIRST write_end (left_ = 1) and finds the data of
-   round 2 (wround = 2, mem = 22); the synchronised convention rejects this schedule *)
-Theorem C14_back_to_back_rounds_refuted :
-  option_map (fun s => (left_ s 1, wround s, mem s, conflict s)) (prun 2 (pinit 0%Z) b2b_events) = Some (1, 2, 22%Z, true)
-  /\ prun_sync 2 (pinit 0%Z) b2b_events = None.
+(* F-C14b, REPAIRED in libsc (barrier in sc_shmem_write_start_window); regression guards about the protocol WITHOUT that barrier
+   (prun_old = libsc before the repair).  Two write rounds back to back, WS i = [WS_arrive i; WS_leave i]: rank 1 has returned from
+   its FIRST write_end (left_ = 1, phase Reading) and finds the data of round 2 (wround = 2, mem = 22, not snap 1 = 11), and a
+   NOCHECK assertion was false; the repaired protocol does not admit this schedule at all *)
+Theorem C14_back_to_back_rounds_old_refuted :
+  option_map (fun s => (ph s 1, left_ s 1, wround s, mem s, snap s 1, conflict s)) (prun_old 2 (pinit 0%Z) b2b_events)
+    = Some (Reading, 1, 2, 22%Z, 11%Z, true)
+  /\ prun 2 (pinit 0%Z) b2b_events = None.
 Proof. exact back_to_back_refuted. Qed.
-Print Assumptions C14_back_to_back_rounds_refuted.
+Print Assumptions C14_back_to_back_rounds_old_refuted.
 
-(* the MPI_MODE_NOCHECK assertion of the exclusive lock is false already in the first round *)
-Theorem C14_nocheck_conflict_reachable : option_map conflict (prun_sync 2 (pinit 0%Z) [WS 0]) = Some true.
+(* without the barrier the MPI_MODE_NOCHECK assertion of the exclusive lock was false already in the first round (the other rank
+   still holds the shared lock of sc_shmem_malloc); with the barrier the writer cannot pass write_start alone *)
+Theorem C14_nocheck_conflict_old_reachable :
+  option_map conflict (prun_old 2 (pinit 0%Z) (WS 0)) = Some true /\ prun 2 (pinit 0%Z) (WS 0) = None.
 Proof. exact nocheck_conflict_reachable. Qed.
-Print Assumptions C14_nocheck_conflict_reachable.
+Print Assumptions C14_nocheck_conflict_old_reachable.
 
 (* ---- the hypotheses are satisfiable ---------------------------------------------------------------------------------- *)
 Example C14_ex_grid : grid_position (attach_explicit 6 2 3) 3 = (1, 2, 1, 3).
@@ -263,12 +305,18 @@ Example C14_ex_results :
   /\ map (write_start (comms_explicit 2 2) Window) [0; 1; 2; 3] = [true; false; true; false].
 Proof. vm_compute. repeat split. Qed.
 
-Example C14_ex_synced_rounds :
-  option_map (fun s => (left_ s 0, left_ s 1, wround s, mem s))
-    (prun_sync 2 (pinit 0%Z) [WS 1; WS 0; WR 0 11%Z; WE_arrive 1; WE_arrive 0; WE_leave 1; WE_leave 0;
-                              WS 0; WR 0 22%Z; WS 1; WE_arrive 0; WE_arrive 1; WE_leave 0; WE_leave 1])
-  = Some (2, 2, 2, 22%Z).
-Proof. exact synced_two_rounds. Qed.
+(* two complete write rounds back to back (no synchronisation between them other than the protocol's own) on 2 and on 3 ranks *)
+Example C14_ex_two_rounds_on_2 :
+  option_map (fun s => (map (left_ s) [0; 1], map (ph s) [0; 1], wround s, mem s, (snap s 0, snap s 1, snap s 2), conflict s))
+    (prun 2 (pinit 0%Z) two_rounds_2)
+  = Some ([2; 2], [Reading; Reading], 2, 22%Z, (0%Z, 11%Z, 22%Z), false).
+Proof. exact two_rounds_on_2. Qed.
+
+Example C14_ex_two_rounds_on_3 :
+  option_map (fun s => (map (left_ s) [0; 1; 2], map (lk s) [0; 1; 2], wround s, mem s, (snap s 1, snap s 2), conflict s))
+    (prun 3 (pinit 0%Z) two_rounds_3)
+  = Some ([2; 2; 2], [SharedLock; SharedLock; SharedLock], 2, 22%Z, (11%Z, 22%Z), false).
+Proof. exact two_rounds_on_3. Qed.
 
 Example C14_ex_dup_life :
   let s0 := mk_ls [] 0 None in
@@ -312,36 +360,44 @@ Theorem C14_gen_attach_split_type : forall mx mn ir r, attach_unequal mx mn = ne
 Proof. exact gen_attach_split_type. Qed.
 Print Assumptions C14_gen_attach_split_type.
 
-(* sc_shmem_write_start_window returns 1 exactly for intrarank 0; it always unlocks and locks exactly then *)
-Theorem C14_gen_write_start_window : forall ir a c n1 n2 w u1 u2 u3, write_start_window ir a c n1 n2 w u1 u2 u3 = (b2z (ir =? 0), 1, b2z (ir =? 0)).
+(* sc_shmem_write_start_window: every rank unlocks (1st of the lock / barrier calls), then passes the barrier on the INTRANODE
+   communicator (2nd); exactly intrarank 0 then takes the exclusive lock (3rd; 234 = MPI_LOCK_EXCLUSIVE) and gets 1 *)
+Theorem C14_gen_write_start_window : forall ir a c n1 n2 w u1 u2 u3 u4, write_start_window ir a c n1 n2 w u1 u2 u3 u4 =
+  (b2z (ir =? 0), 1, 1, 1, 2, n1, b2z (ir =? 0), if ir =? 0 then 3 else 0, if ir =? 0 then 234 else 0).
 Proof. exact gen_write_start_window. Qed.
 Print Assumptions C14_gen_write_start_window.
 
 (* the model's return value of sc_shmem_write_start = the generated value of the flavour, at intrarank = position of the rank in its node *)
-Theorem C14_gen_write_start : forall comms f r a c n1 n2 w u1 u2 u3, write_start comms f r =
+Theorem C14_gen_write_start : forall comms f r a c n1 n2 w u1 u2 u3 u4, write_start comms f r =
   match comms r with
   | Some nc => if is_shared f
-               then z2b (fst (fst (write_start_window (zn (index_in r (intra nc))) a c n1 n2 w u1 u2 u3)))
+               then z2b (ws_ret (write_start_window (zn (index_in r (intra nc))) a c n1 n2 w u1 u2 u3 u4))
                else z2b write_start_basic
   | None => z2b write_start_basic
   end.
 Proof. exact gen_write_start. Qed.
 Print Assumptions C14_gen_write_start.
 
-(* the MPI calls the model lists for write_start are the ones the generated code makes *)
-Theorem C14_gen_calls_write_start : forall ir a c n1 n2 w u1 u2 u3, let '(ret, unl, lck) := write_start_window ir a c n1 n2 w u1 u2 u3 in
-  calls_write_start true (z2b ret) = (if unl =? 1 then [6%nat] else []) ++ (if lck =? 1 then [7%nat] else []).
+(* the MPI calls the model lists for write_start are the ones the generated code makes, IN THE ORDER it makes them
+   (calls_in_order: the calls made, by their position): unlock, barrier on intranode, exclusive lock of the writer *)
+Theorem C14_gen_calls_write_start : forall ir a c n1 n2 w u1 u2 u3 u4,
+  let '(ret, unl, unl_at, bar, bar_at, bar_comm, lck, lck_at, lck_type) := write_start_window ir a c n1 n2 w u1 u2 u3 u4 in
+  calls_write_start true (z2b ret) = calls_in_order [(unl, unl_at, 6%nat); (bar, bar_at, 5%nat); (lck, lck_at, lock_code lck_type)]
+  /\ bar_comm = n1.
 Proof. exact gen_calls_write_start. Qed.
 Print Assumptions C14_gen_calls_write_start.
 
-(* sc_shmem_write_end_window: only intrarank 0 unlocks; barrier on the intranode communicator; everybody locks *)
-Theorem C14_gen_write_end_window : forall ir a c n1 n2 w u1 u2 u3 u4, write_end_window ir a c n1 n2 w u1 u2 u3 u4 = (b2z (ir =? 0), 1, n1, 1).
+(* sc_shmem_write_end_window: only intrarank 0 unlocks; then the barrier on the intranode communicator; then everybody takes the shared lock (235) *)
+Theorem C14_gen_write_end_window : forall ir a c n1 n2 w u1 u2 u3 u4, write_end_window ir a c n1 n2 w u1 u2 u3 u4 =
+  (b2z (ir =? 0), (if ir =? 0 then 1 else 0), 1, (if ir =? 0 then 2 else 1), n1, 1, (if ir =? 0 then 3 else 2), 235).
 Proof. exact gen_write_end_window. Qed.
 Print Assumptions C14_gen_write_end_window.
 
-(* the MPI calls the model lists for write_end are the ones the generated code makes *)
-Theorem C14_gen_calls_write_end : forall ir a c n1 n2 w u1 u2 u3 u4, let '(unl, bar, _, lck) := write_end_window ir a c n1 n2 w u1 u2 u3 u4 in
-  calls_write_end true (ir =? 0) = (if unl =? 1 then [6%nat] else []) ++ (if bar =? 1 then [5%nat] else []) ++ (if lck =? 1 then [8%nat] else []).
+(* the MPI calls the model lists for write_end are the ones the generated code makes, in that order *)
+Theorem C14_gen_calls_write_end : forall ir a c n1 n2 w u1 u2 u3 u4,
+  let '(unl, unl_at, bar, bar_at, bar_comm, lck, lck_at, lck_type) := write_end_window ir a c n1 n2 w u1 u2 u3 u4 in
+  calls_write_end true (ir =? 0) = calls_in_order [(unl, unl_at, 6%nat); (bar, bar_at, 5%nat); (lck, lck_at, lock_code lck_type)]
+  /\ bar_comm = n1.
 Proof. exact gen_calls_write_end. Qed.
 Print Assumptions C14_gen_calls_write_end.
 
